@@ -42,9 +42,10 @@ theorem tunnel_request_carries_its_tunnels_session (s0 : St) (j k : Nat) (rq : R
     (h : at? sd base s0 0 items k = some (s', it)) :
     Ev.reqmod k (base + k) true true true (j + 2) ∈ runConnOn s0 sd base items := by
   have hsec := at?_after_mitm sd base s0 0 items j k s' it rq rs (by omega) hjk (by simpa using hj) h
-  obtain ⟨h1, h2, _⟩ := hsec
+  obtain ⟨h2, _⟩ := hsec
   have := request_tls_state_is_the_innermost_sessions sd base items s0 k s' it h
-  rw [h1, h2, tidAt_after 0 s0.tlsId items j k (by omega) hjk ⟨_, by simpa using hj, rfl⟩
+  simp only [h2, Bool.or_true] at this
+  rw [tidAt_after 0 s0.tlsId items j k (by omega) hjk ⟨_, by simpa using hj, rfl⟩
     (by intro m h1 h2 x hx; exact hno m h1 h2 x (by simpa using hx))] at this
   simpa using this
 
@@ -55,7 +56,7 @@ theorem tunnel_request_never_carries_the_listeners_session (j k : Nat) (rq : Req
     (h : at? sd base tlsListenerState 0 items k = some (s', it)) :
     s'.connTls = true ∧ s'.tlsId ≠ 1 ∧ s'.tlsId ≠ 0 := by
   have hsec := at?_after_mitm sd base tlsListenerState 0 items j k s' it rq rs (by omega) hjk (by simpa using hj) h
-  refine ⟨hsec.2.1, ?_⟩
+  refine ⟨hsec.1, ?_⟩
   rw [(at?_tls sd base tlsListenerState 0 items k s' it h).1]
   -- the session in force is `m + 2` for the last TLS CONNECT `m` before `k`, and there is one (`j`)
   suffices hs : ∀ (l : List Item) (i t : Nat), i ≤ j → (∃ x, l[j - i]? = some x ∧ isTlsMitm x = true) →
@@ -97,7 +98,7 @@ theorem hijacker_is_handed_the_innermost_tunnels_connection (s0 : St) (j k : Nat
     (h : at? sd base s0 0 items k = some (s', it)) :
     ∀ t tid, Ev.hijacked k t tid ∈ (handleItem sd s' k (base + k) it).1 → t = true ∧ tid = j + 2 := by
   have hsec := at?_after_mitm sd base s0 0 items j k s' it rq rs (by omega) hjk (by simpa using hj) h
-  obtain ⟨h1, h2, h3⟩ := hsec
+  obtain ⟨h2, h3⟩ := hsec
   have hid : s'.tlsId = j + 2 := by
     rw [(at?_tls sd base s0 0 items k s' it h).1]
     exact tidAt_after 0 s0.tlsId items j k (by omega) hjk ⟨_, by simpa using hj, rfl⟩
@@ -146,8 +147,8 @@ the loop with exactly the state a plain request leaves behind (`stAfter s`: noth
 nothing newly marked), on the same connection. -/
 theorem failed_handshake_changes_no_session_state (s : St) (i c : Nat) (rq : ReqB) (rs : ResB)
     (hq : rq ≠ .hijack) (hs : rs ≠ .hijack) :
-    (handleItem sd s i c (.connectMitmFail rq rs)).2 = .again (stAfter s) ∧
-    (handleItem sd s i c (.connectMitmFail rq rs)).2 = (handleItem false s i c (.x false .pass .pass (.ok 200 false))).2 := by
+    (handleItem sd s i c (.connectMitmFail rq rs)).2 = .again (afterReq rq (stAfter s)) ∧
+    (handleItem sd s i c (.connectMitmFail rq rs)).2 = (handleItem false s i c (.x false rq .pass (.ok 200 false))).2 := by
   cases rq <;> cases rs <;> simp_all [handleItem, handleMitmFail, handleX, rqSkip]
 
 /-- After handshakes that failed - and tunnels carrying cleartext - on a plain listener connection,
@@ -169,6 +170,33 @@ theorem failed_handshake_inside_tunnel_keeps_the_tunnels_session (s0 : St) (j m 
     (h : at? sd base s0 0 items k = some (s', it)) :
     Ev.reqmod k (base + k) true true true (j + 2) ∈ runConnOn s0 sd base items :=
   tunnel_request_carries_its_tunnels_session sd base items s0 j k rq rs s' it hj (by omega) hno h
+
+/-! ### What modifiers do to the session through its public API -/
+
+/-- **One session, one storage, for the whole connection**: when the request with index `k` is read,
+the session holds every value stored during the `k` earlier exchanges of the connection - across
+CONNECT, the TLS upgrade (`setConn`), nested tunnels, failed handshakes and whatever the modifiers
+did. (`stored` counts the values; the recording request modifier stores one per request.) -/
+theorem session_values_survive_the_connection (s0 : St) (k : Nat) (s' : St) (it : Item)
+    (h : at? sd base s0 0 items k = some (s', it)) : s'.stored = s0.stored + k := by
+  simpa using at?_stored sd base s0 0 items k s' it h
+
+/-- **`MarkInsecure()` by a modifier does not downgrade a decrypted connection**: after an exchange
+whose request modifier cleared the flag, the flag *is* cleared (`secure = false`), and the next
+request read from the TLS connection is https on a secure session with TLS state all the same -
+`handle` looks at the connection it is given, every time. -/
+theorem markinsecure_lasts_until_the_next_request (s : St) (i c : Nat) (rc : Bool) (rs : ResB) (org : Org) (s2 : St)
+    (hs : Sec s) (h : (handleItem sd s i c (.x rc .insecure rs org)).2 = .again s2) (i' c' : Nat) (it : Item) :
+    s2.secure = false ∧
+      Ev.reqmod i' c' true true true s2.tlsId ∈ (handleItem sd s2 i' c' it).1 := by
+  have hsec2 : Sec s2 := again_sec sd s s2 i c _ hs h
+  refine ⟨?_, ?_⟩
+  · revert h
+    cases rs <;> cases org <;> simp [handleItem, handleX, rqSkip, afterReq] <;>
+      (try (intro h; split at h <;> first | contradiction | (injection h with h; subst h; simp))) <;>
+      (try (intro _ h; subst h; simp))
+  · have := reqmod_of_state sd s2 i' c' it
+    simpa [hsec2.1] using this
 
 /-! ### Upstream: TLS or nothing -/
 
@@ -195,6 +223,6 @@ example : (runConnOn tlsListenerState false 0 [.x false .pass .pass (.ok 200 fal
       (fun e => match e with | .reqmod i _ _ _ _ tid => some (i, tid) | _ => none)
     = [(0, 1), (1, 1), (2, 3), (3, 3), (4, 3), (5, 3), (6, 7)] := by decide
 example : at? false 0 tlsListenerState 0 [.connectMitm true .pass .pass, .x false .pass .pass (.ok 200 false)] 1
-    = some ({ secure := true, connTls := true, sessTls := true, tlsId := 2 }, .x false .pass .pass (.ok 200 false)) := by decide
+    = some ({ secure := true, connTls := true, sessTls := true, tlsId := 2, stored := 1 }, .x false .pass .pass (.ok 200 false)) := by decide
 
 end Martian.Props.C05
